@@ -40,6 +40,107 @@ fn base(a: &Args) -> Campaign {
     }
 }
 
+const F_INDEX_CRASH: &str = "C10-version-index-not-crash-consistent";
+
+/// Traced runs of a versioned store (sets only, so every version is retained), flushes every
+/// few commits; every process-crash image is opened by the real code: commit prefix + the
+/// version history of every key exactly as the prefix wrote it.
+fn crash_part(run: &mut Run, a: &Args) -> (u64, u64) {
+    use crate::e2::Workload;
+    use crate::trace::Loss;
+    let scratch = crate::e1::scratch_root().join("c10-crash");
+    let _ = std::fs::create_dir_all(&scratch);
+    let mine: std::collections::BTreeSet<&str> = crate::props::crash::classes_of("C10").iter().cloned().collect();
+    let mut evals = 0u64;
+    let mut sigs = std::collections::BTreeSet::new();
+    let mut reported = 0;
+    let mut by_backend = std::collections::BTreeMap::new();
+    let findings = crate::evidence::load_findings();
+    let f_index_open = crate::evidence::finding_open(&findings, F_INDEX_CRASH);
+    let mut index_crash_hits = 0u64;
+    let mut index_crash_first: Option<String> = None;
+    for ti in 0..a.tier.pick(4, 24) {
+        let index = ti % 2 == 0;
+        let cfg = crate::cfg::Cfg {
+            versioning: true,
+            vlog: true,
+            vlog_threshold: 0,
+            index,
+            flush_on_close: ti % 4 < 2,
+            max_memtable_size: 64 * 1024,
+            level_count: 3,
+            l0_max_files: 2,
+            max_bytes_for_level: 2048,
+            ..crate::cfg::Cfg::default()
+        };
+        let w = Workload {
+            txns: a.tier.pick(30, 60),
+            committers: 1,
+            nkeys: 6,
+            max_value: 80,
+            immediate_pct: 20,
+            sync_every: 0,
+            close_at_end: true,
+            delete_pct: 0,
+            first_txn: 1,
+            big_batch_pct: 0,
+            manual_flush_every: [4, 7][ti % 2],
+            hook_rotate_pct: 0,
+            hook_flush_pct: 0,
+        };
+        let out = match crate::props::crash::trace_and_verify(&scratch, &format!("v{}", ti), &cfg, &w, a.seed.wrapping_add(500 + ti as u64), false, &|p| p.loss == Loss::Process, 0, None) {
+            Ok(o) => o,
+            Err(e) => {
+                run.inconclusive(&format!("versioned trace {}: {}", ti, e));
+                continue;
+            }
+        };
+        for m in &out.inconclusive {
+            run.inconclusive(&format!("versioned trace {}: {}", ti, m));
+        }
+        for res in &out.results {
+            evals += 1;
+            *by_backend.entry(if index { "index" } else { "lsm" }).or_insert(0u64) += 1;
+            if let Some(sg) = res["sig"].as_str() {
+                sigs.insert(format!("{}|{}", index, sg));
+            }
+            let idx = res["idx"].as_u64().unwrap_or(0) as usize;
+            let plan = &out.plans[idx.min(out.plans.len() - 1)];
+            for p in res["problems"].as_array().cloned().unwrap_or_default() {
+                let class = p[0].as_str().unwrap_or("");
+                let text = p[1].as_str().unwrap_or("");
+                // open known finding: the version index file is updated in place without any
+                // crash protection; a crash between its page writes leaves a tree that does
+                // not load. Exactly that pattern (index on, the error comes from the B+tree
+                // loader) is attributed to the finding.
+                if index && text.contains("B+ tree error") && (class == "open" || class == "history_after_crash" || class == "read") {
+                    if f_index_open {
+                        index_crash_hits += 1;
+                        if index_crash_first.is_none() {
+                            index_crash_first = Some(format!("versioned store with the version index, process crash after trace record {} ({}): {}", plan.upto, crate::props::crash::rec_short(&out.t.recs[plan.upto]), text));
+                        }
+                        continue;
+                    }
+                }
+                if mine.contains(class) && reported < 6 {
+                    reported += 1;
+                    run.violation(
+                        &format!("[{}] versioned trace {} (version index {}), process crash after record {} ({}): {}", class, ti, if index { "on" } else { "off" }, plan.upto, crate::props::crash::rec_short(&out.t.recs[plan.upto]), p[1].as_str().unwrap_or("")),
+                        json!({"engine": "e2", "part": "c10-crash", "options": cfg.to_json(), "workload": w.to_json(), "crash_after_trace_record": plan.upto}),
+                    );
+                }
+            }
+        }
+        crate::props::crash::cleanup_keep(&scratch, &format!("v{}", ti));
+    }
+    let _ = std::fs::remove_dir_all(&scratch);
+    if let Some(w) = index_crash_first {
+        run.known_finding(F_INDEX_CRASH, &format!("{} ({} crash images of this run show it)", w, index_crash_hits));
+    }
+    run.cov("crash_images_versioned", json!({"images": evals, "by_backend": by_backend, "distinct_signatures": sigs.len(), "images_attributed_to_open_finding": index_crash_hits}));
+    (evals, sigs.len() as u64)
+}
+
 pub fn run(a: &Args) -> i32 {
     surrealkv::verif::set_manual_background(true);
     let mut run = Run::new("C10", a.tier, a.seed, "exploration");
@@ -78,6 +179,9 @@ pub fn run(a: &Args) -> i32 {
     run.cov("generator_masks", json!(masks));
     let out3 = campaign::run_campaign(&c3, a.seed ^ 0x20, "c10c");
     campaign::report_failures(&mut run, &out3, &c3.exec);
+    // 4. crash clause: process-crash images at every file-operation boundary of traced runs
+    // with versioning on (both back-ends); the version index is updated in place during a flush
+    let (crash_evals, crash_distinct) = crash_part(&mut run, a);
     run.cov("unlimited_retention_both_backends", campaign::stats_json(&out1.stats));
     run.cov("out_of_order_timestamps_index_backend", campaign::stats_json(&out2.stats));
     run.cov("finite_retention_manual_clock", campaign::stats_json(&out3.stats));
@@ -92,11 +196,12 @@ pub fn run(a: &Args) -> i32 {
         "finite retention: a version is required only if it was inside the window at the last compaction the harness ran (manual clock); older ones may be present or absent".into(),
         "the crash clause (process-crash images around index flushes) is part of the crash engine runs of this check".into(),
     ];
+    let _ = crash_distinct;
     run.finish(
-        out1.evaluations + out2.evaluations + out3.evaluations,
+        out1.evaluations + out2.evaluations + out3.evaluations + crash_evals,
         distinct.len() as u64,
         a.tier.pick(100, 1000),
-        "one evaluation = one execution of a generated timestamped history (sets, soft/hard deletes, replaces, explicit timestamps) under one placement schedule and option set (index on/off alternates between the variants of one logical history); after every step get_at at every interesting timestamp and complete forward/backward history traversals with option variants are compared with the retained-version model; non-trivial = a compaction changed the table set and history was checked; distinct = (option signature, level-shape set)",
+        "one evaluation = one execution of a generated timestamped history (sets, soft/hard deletes, replaces, explicit timestamps) under one placement schedule and option set (index on/off alternates between the variants of one logical history); after every step get_at at every interesting timestamp and complete forward/backward history traversals with option variants are compared with the retained-version model, or one process-crash image of a traced versioned run (both back-ends) opened by the real code and checked for commit-prefix state and per-key version history; non-trivial = a compaction changed the table set and history was checked; distinct = (option signature, level-shape set)",
         samples,
     )
 }
